@@ -79,7 +79,7 @@ def _plain(idn, style, rng):
         d = "98765%09d" % idn
         return d, d
     if style == "long":
-        return tok + "L" * rng.choice([100, 1000, 20000]), tok
+        return tok + "L" * rng.choice([100, 1000, 12000]), tok
     if style == "jsonlike":
         return '{"k":"%s","n":1}' % tok, tok
     if style == "b64like":
@@ -113,6 +113,7 @@ class Concretiser:
         self.styles = styles or STYLES
         self.nsrel = None
         self._keys = {}
+        self._long_used = False
         self.exotic_keys = True
 
     def _id(self):
@@ -136,6 +137,10 @@ class Concretiser:
                 node, tok = ('str', s), s
             else:
                 style = "ascii" if v == 0 else rng.choice(self.styles)
+                if style == "long":          # one long literal per line keeps the line below the reader's 64 KiB limit
+                    if self._long_used:
+                        style = "unicode"
+                    self._long_used = True
                 s, tok = _plain(idn, style, rng)
                 node = ('str', s)
         elif cls == "email":
@@ -265,28 +270,41 @@ def run_batch(b, lines, cfg, workdir, keyfile=None):
     return p.returncode, p.stdout.decode("utf-8", "replace"), p.stderr.decode("utf-8", "replace")
 
 
+_ID_RE = re.compile(r'"id":(\d+),"ctx":')
+
+
 def collect(lines_out):
-    """stdout text -> {id: (raw, tree)}, stray (lines that are not a JSON object with a numeric id)."""
+    """stdout text -> {id: raw line}, stray (lines that are not one JSON object with the line's numeric id).
+    The id is read with a regular expression where the line has the usual layout, with the full parser otherwise
+    (so a serialiser that spaces differently is still understood)."""
     got, stray = {}, []
     for raw in lines_out.split("\n"):
         if raw == "":
             continue
+        m = _ID_RE.search(raw) if raw.startswith("{") and raw.endswith("}") else None
+        idn = None
         try:
-            t = jsonx.parse(raw)
-            if t[0] != 'obj':
-                raise ValueError("not an object")
-            idn = None
-            for k, v in t[1]:
-                if k == "id" and v[0] == 'num':
-                    idn = int(v[1])
-                    break
+            if m:
+                idn = int(m.group(1))
+                if STRICT_PARSE:
+                    json.loads(raw)      # validity only (C parser); trees are built lazily where a judge needs them
+            else:
+                t = jsonx.parse(raw)
+                if t[0] != 'obj':
+                    raise ValueError("not an object")
+                for k, v in t[1]:
+                    if k == "id" and v[0] == 'num':
+                        idn = int(v[1])
+                        break
             if idn is None or idn in got:
                 raise ValueError("no id / duplicate id")
-            got[idn] = (raw, t)
+            got[idn] = raw
         except Exception as e:
             stray.append((raw[:2000], str(e)))
     return got, stray
 
+
+STRICT_PARSE = True
 
 def run_with_bisect(b, lines, ids, cfg, workdir, keyfile, crashed, depth=0):
     """Runs a batch; when the process dies (exit status other than 0) the batch is bisected down to the lines
@@ -412,7 +430,17 @@ def drift(pred, actual, cfg):
 
 
 class Result:
-    __slots__ = ("rec", "variant", "cfg", "inp", "leaves", "line", "raw", "out", "crash", "pred", "_al", "gid")
+    __slots__ = ("rec", "variant", "cfg", "inp", "leaves", "line", "raw", "_out", "crash", "pred", "_al", "gid")
+
+    @property
+    def out(self):
+        """The output line parsed by the independent reader (lazily: many judges decide on the raw bytes)."""
+        if self._out is None and self.raw is not None:
+            try:
+                self._out = jsonx.parse(self.raw)
+            except Exception:
+                self._out = ('str', "<<unparseable output>>")
+        return self._out
 
     def aligned(self):
         if self._al is None:
@@ -474,7 +502,8 @@ def process_chunk(args):
             for gid, (rec, v, tree, leaves, text) in enumerate(cases):
                 r = Result()
                 r.rec, r.variant, r.cfg, r.inp, r.leaves, r.line = rec, v, cfg, tree, leaves, text
-                r.raw, r.out = got.get(gid, (None, None))
+                r.raw = got.get(gid)
+                r._out = None
                 r.crash = crashed.get(gid)
                 r.pred = rec["p"].get(cfg.name)
                 r._al = None
@@ -489,6 +518,8 @@ def process_chunk(args):
             judge(byc, res)
             if opts.get("drift", True):
                 for name, r in byc.items():
+                    if r.variant != 0:
+                        continue
                     if r.out is not None and r.pred is not None:
                         toks, _ = r.aligned()
                         if drift(r.pred, toks, r.cfg):
@@ -579,7 +610,9 @@ def add_violation(res, sig, r, detail=None):
 
 
 def generate(module, cfgfile, cfgs, defines, sink, timeout=1500, simulate=None, depth=None, seed=None):
-    d = {"Cfgs": cfgs_tla(cfgs), "TWTables": "{}", "TWShapeKinds": "{}", "FreeDepth": "1", "FreeKeys": "{}", "FreeSlots": "{}"}
+    d = {"Cfgs": cfgs_tla(cfgs), "TWTables": "{}", "TWShapeKinds": "{}", "FreeDepth": "1", "FreeKeys": "{}", "FreeSlots": "{}",
+         "GMDepth": "4", "GMWide": "1", "GMMaxFld": "2", "GMMaxArr": "2", "GMTail": "2", "GMShallow": "2", "GMSeeds": "{}", "GMSlots": "{}", "GMFields": '{"uf1"}',
+         "GMKinds": '{"plain", "email", "num", "bool", "dollar", "date", "oid", "b64", "nsname", "null", "empty"}'}
     d.update(defines or {})
     return common.run_tlc(module, cfgfile, defines=d, sink=sink, want_records=False, timeout=timeout,
                           simulate=simulate, depth=depth, seed=seed)
@@ -645,3 +678,102 @@ def walk_both(a, b, path=()):
             yield from walk_both(v, v2, path + (i,))
     else:
         yield ('leaf', path, a, b)
+
+
+# ------------------------------------------------------------------ helpers for label-based judges
+def abstract_path(path, upto=None):
+    """Concrete path -> signature path: array indexes become [], planted user names become their abstract role."""
+    out = []
+    for p in (path if upto is None else path[:upto]):
+        if isinstance(p, int):
+            out.append("[]")
+        else:
+            q = p
+            for ex in EXOTIC_KEYS:
+                if ex in p and p != ex:
+                    q = ex
+            out.append(q)
+    return "/".join(out)
+
+
+def grammar_dump():
+    r = common.run_tlc("GrammarDump", "GrammarDump.cfg", workers=1, timeout=300)
+    if not r.ok or not r.records:
+        raise common.Infra("GrammarDump failed: %s" % r.out[-500:])
+    return r.records[0]
+
+
+def grammar_edges(dump=None):
+    d = dump or grammar_dump()
+    return set((a, b) for a, b, _ in d["edges"])
+
+
+def grammar_seeds(dump, field="uf1", slots=("filter", "update", "updates", "deletes", "documents", "pipeline", "sort")):
+    """One shortest key path through every edge of the grammar (key edges, the user-field edge and the array edge of
+    every nonterminal): shortest prefix from a command slot + the edge + shortest completion to a nonterminal that
+    admits a scalar.  Returned as the TLA+ text of the constant GMSeeds; RedactorGM validates each against G."""
+    import collections
+    succ = collections.defaultdict(list)     # nt -> [(key, child)]
+    for nt, k, ch in dump["edges"]:
+        succ[nt].append((k, ch))
+    kinds = {}
+    for nt, f, a, nk in dump["links"]:
+        kinds[nt] = nk
+        if f != "none":
+            succ[nt].append((field, f))
+        if a != "none":
+            succ[nt].append(("[]", a))
+    for nt in succ:
+        succ[nt].sort()
+    # shortest prefix (slot, keys) to every nonterminal
+    prefix = {}
+    q = collections.deque()
+    for s in slots:
+        nt = dump["slots"][s]
+        if nt not in prefix:
+            prefix[nt] = (s, [])
+            q.append(nt)
+    while q:
+        nt = q.popleft()
+        for k, ch in succ.get(nt, []):
+            if ch not in prefix:
+                prefix[ch] = (prefix[nt][0], prefix[nt][1] + [k])
+                q.append(ch)
+    # shortest completion from every nonterminal to one with scalars
+    comp = {nt: [] for nt, n in kinds.items() if n > 0}
+    changed = True
+    while changed:
+        changed = False
+        for nt in list(succ):
+            if nt in comp:
+                continue
+            best = None
+            for k, ch in succ[nt]:
+                if ch in comp and (best is None or len(comp[ch]) + 1 < len(best)):
+                    best = [k] + comp[ch]
+            if best is not None:
+                comp[nt] = best
+                changed = True
+    seeds = set()
+    for nt in succ:
+        if nt not in prefix:
+            continue
+        s, pre = prefix[nt]
+        for k, ch in succ[nt]:
+            if ch in comp:
+                seeds.add((s, tuple(pre + [k] + comp[ch])))
+    q_ = lambda x: '"' + x.replace("\\", "\\\\").replace('"', '\\"') + '"'
+    return "{" + ", ".join("<<%s, <<%s>>>>" % (q_(s), ", ".join(q_(k) for k in ks)) for s, ks in sorted(seeds)) + "}", len(seeds)
+
+
+class EdgeCoverage:
+    """Collects, from the meta data of grammar-mode records, which (nonterminal, key) edges were exercised."""
+
+    def __init__(self, sink):
+        self.inner, self.seen = sink, set()
+
+    def sink(self, rec):
+        for e in rec.get("m", []) or []:
+            self.seen.add((e[0], e[1]))
+        rec.pop("m", None)
+        self.inner(rec)
